@@ -223,14 +223,14 @@ def getScaled (ty : IntTy) (invalid raw scale offset : Nat) : Nat :=
   if raw = invalid then float64Invalid else sub (div (ofInt (ty.toInt raw)) scale) offset
 
 /-- `SetXxxScaled(v)`: `unscaled := (v + offset) * scale`; NaN, ±Inf or `> float64(invalid)` store the invalid
-sentinel, everything else is converted with Go's truncating conversion -/
+sentinel, everything else is rounded to the nearest integer (`math.Round`) and converted -/
 def setScaled (ty : IntTy) (invalid v scale offset : Nat) : Nat :=
   let u := mul (add v offset) scale
-  if isNaN u || isInf u || fgt u (ofInt (ty.toInt invalid)) then invalid else cvt ty u
+  if isNaN u || isInf u || fgt u (ofInt (ty.toInt invalid)) then invalid else cvt ty (round u)
 
 def setScaledFlag (ty : IntTy) (invalid v scale offset : Nat) : Bool :=
   let u := mul (add v offset) scale
-  !(isNaN u || isInf u || fgt u (ofInt (ty.toInt invalid))) && cvtFlag ty u
+  !(isNaN u || isInf u || fgt u (ofInt (ty.toInt invalid))) && cvtFlag ty (round u)
 
 /-! ### CSV reader, scaled path -/
 
